@@ -1,6 +1,6 @@
 SPECIFICATION TraceSpec
 CONSTANTS
-  StartClip = TRUE
+  StartClip = FALSE
 CONSTRAINT Mark
 POSTCONDITION Accepted
 CHECK_DEADLOCK FALSE
